@@ -332,6 +332,8 @@ def decodeFrag : Nat → String → Json → Option String → Option Agg
           let n ← (Json.get? "nanflow" m).bind (fun x => sub nt x none)
           let origin ← (Json.get? "origin" m).bind Json.toRat?
           if !(0 < width) || !isKnownType bt then none else
+          -- two keys that denote the same bin index ("1" and "01") are rejected, not merged into one bin
+          if !(bins.map (·.1)).Nodup then none else
           pure (.node (.sparse (deadQty nm) width origin bt bn) e .unit none
                   ((.nanflow, n) :: bins.foldl (fun acc p => insertK p.1 p.2 acc) []))
     | "CentrallyBin", .obj m =>
